@@ -2,6 +2,9 @@ RULES = [
     ("C02-F4", "a derived bundle p = bb OP k consumed both by a gate '(bb[\"t\"] > c) : p' and by a selection p[\"u\"] + 1: the "
                "selection reads 0 for the member (the selected member never reaches the adder)",
      lambda c, d: "+sel-result" in c["tag"]),
+    ("C02-F5", "a gated bundle g1 = (s > 0) : bb that feeds a second gate AND an each-arithmetic (q = g1 * 3): the "
+               "each-arithmetic reads nothing (its input wire carries no member), besides the leak of C02-F1 in the second gate",
+     lambda c, d: "+inner-exposed" in c["tag"]),
     ("C02-F1", "gating '(s CMP k) : bundle': the condition signal travels on the same network as the bundle and the "
                "signal-everything output passes it on, so the scalar leaks into the result",
      lambda c, d: c["tag"].startswith("gate")),
